@@ -37,13 +37,14 @@ _EXTRA = {
                                "scalar_branch_eq"],
     "IdentityRTransform": ["deriv_pos", "strictMonoOn_transform", "transform_domain_lo", "tendsto_transform_domain_hi",
                            "scalar_branch_eq"],
-    "LinearInfiniteRTransform": ["deriv_pos", "strictMonoOn_transform", "transform_domain_lo", "transform_b"],
+    "LinearInfiniteRTransform": ["deriv_pos", "strictMonoOn_transform", "transform_domain_lo", "transform_b", "scalar_branch_eq"],
     "ExpRTransform": ["deriv_pos", "strictMonoOn_transform", "transform_domain_lo", "transform_b"],
     "PowerRTransform": ["deriv_pos", "strictMonoOn_transform", "transform_domain_lo", "transform_b"],
     "HyperbolicRTransform": ["inverse_mem", "deriv_pos", "strictMonoOn_transform", "transform_domain_lo", "tendsto_transform_pole",
-                             "below_pole_of_not_raises"],
+                             "below_pole_of_not_raises", "scalar_not_raises"],
     "MultiExpRTransform": ["inverse_mem", "deriv_neg", "strictAntiOn_transform", "transform_domain_hi", "tendsto_transform_domain_lo"],
-    "KnowlesRTransform": ["inverse_mem", "deriv_pos", "strictMonoOn_transform", "transform_domain_lo", "tendsto_transform_domain_hi"],
+    "KnowlesRTransform": ["inverse_mem", "deriv_pos", "strictMonoOn_transform", "transform_domain_lo", "tendsto_transform_domain_hi",
+                          "transform_apply"],
     "HandyRTransform": ["inverse_mem", "deriv_pos", "strictMonoOn_transform", "transform_domain_lo", "tendsto_transform_domain_hi"],
     "HandyModRTransform": ["inverse_mem", "deriv_pos", "strictMonoOn_transform", "transform_domain_lo", "transform_domain_hi",
                            "hasDerivAt_transform_of_ne", "hasDerivAt_deriv_of_ne", "hasDerivAt_deriv2_of_ne"],
@@ -220,8 +221,7 @@ def corr(ctx: Ctx):
                     tag, v = _impl_call(TT, meth, np.array(arg, dtype=float))
                 cases.append(("evalinv" if wrap else "eval", cls, ps, trim, meth, arg, (tag, None if v is None else _vals(v)),
                               dict(ends=use_ends, nint=npts)))
-            # scalar arguments must agree with the array branch (np.float64 always; Python float where the method accepts it,
-            # the rejecting classes are reported by the oracle)
+            # scalar arguments (np.float64 and Python float) must be accepted and agree with the array branch
             meth = rng.choice(METHODS)
             fwd = (meth in FWD) != wrap
             a0 = (xs if fwd else rs)[0]
@@ -230,9 +230,8 @@ def corr(ctx: Ctx):
                 for kind, sc in (("np.float64", np.float64(a0)), ("float", float(a0))):
                     try:
                         ts, vs = _impl_call(TT, meth, sc)
-                    except AttributeError:
-                        ctx.tagc("scalar:attribute-error")
-                        continue
+                    except Exception as e:  # noqa: BLE001 - a valid scalar argument must be accepted
+                        ts, vs = type(e).__name__, None
                     ctx.count([cls, meth, ps, trim, kind, a0], nontrivial=False, tag="scalar-vs-array")
                     if ts != ta or (ta == "ok" and not close(_vals(vs)[0], _vals(va)[0], rtol=1e-12, atol=1e-13)):
                         ctx.fail("corr", f"scalar:{cls}.{meth}", f"{cls}{tuple(ps)}.{meth}: {kind} argument {a0!r} gives "
@@ -261,7 +260,8 @@ def corr(ctx: Ctx):
             ctx.count([op, cls, meth, [float(p) for p in ps], trim, x], nontrivial=nontriv,
                       tag=f"{cls}:{'inv:' if op == 'evalinv' else ''}{'end' if is_end else 'int'}")
             # conditioning: pow of two libraries may differ by an ulp, which decides inf/nan/finite exactly at a pole
-            if is_end and cls in ("KnowlesRTransform", "HandyModRTransform", "HandyRTransform") and e != int(e):
+            exact_end = cls == "KnowlesRTransform" and meth == ("inverse" if op == "evalinv" else "transform")
+            if is_end and cls in ("KnowlesRTransform", "HandyModRTransform", "HandyRTransform") and e != int(e) and not exact_end:
                 ctx.tagc("end-point-noninteger-exponent-not-compared")
                 continue
             if tag == "zero-division-error":
@@ -371,20 +371,28 @@ def _corr_guards(ctx, mod):
                 with np.errstate(all="ignore"):
                     tag, v = _impl_call(TT, meth, np.array([r]))
                 lines.append(_line("evalinv" if wrap else "eval", cls, meth, trim, 1, ps, r))
-                want.append(tag)
+                want.append((tag, None if v is None else _vals(v)[0]))
                 info.append((cls, ps, meth, wrap))
-    for a, tag, inf in zip(driver_batch(lines), want, info):
+    for a, (tag, v), inf in zip(driver_batch(lines), want, info):
         ctx.count(["zero-division", inf], nontrivial=True, tag="zero-division:" + tag)
-        if tag != "ok" and a != tag:
+        good = (a == tag) if tag != "ok" else (a.startswith("ok ") and close(v, b2f(a.split()[1]), rtol=1e-10))
+        if not good:
             ctx.fail("corr", f"eval:{inf[0]}.{inf[2]}:zero-division", f"{inf[0]}{tuple(inf[1])} {'wrapped ' if inf[3] else ''}{inf[2]}: "
                      f"implementation {tag}, model {a}", witness={"class": inf[0], "params": inf[1], "method": inf[2]})
+
+
+def describe_scalar_classes():
+    """classes whose deriv/deriv2/deriv3 have an `isinstance(x, Number)` branch in the source (from the translator)"""
+    from ..translate import rtransform as tr
+    d = tr.describe()
+    return [c for c in CLASSES if {"deriv", "deriv2", "deriv3"} <= set(d[c]["scalar"])]
 
 
 def _corr_scalar_and_convinf(ctx, mod):
     rng = ctx.rng
     # scalar-branch definitions of the model (LinearFinite, Identity)
     lines, want, info = [], [], []
-    for cls in ("LinearFiniteRTransform", "IdentityRTransform"):
+    for cls in describe_scalar_classes():
         for _ in range(ctx.n(10, 100)):
             ps, _ = gen_params(cls, rng)
             T = construct(cls, ps, None)
@@ -661,6 +669,7 @@ def oracle(ctx: Ctx, budget: str):
                                  f"between consecutive grid points up to {x}", witness={"class": cls, "params": ps, "x": x})
                     prev = r
             _oracle_end_points(ctx, cls, ps, trim, Tf, T)
+    _oracle_knowles_end_point(ctx, mod, budget)
     _oracle_scalar_arguments(ctx, mod)
     _oracle_excluded_parameters(ctx, mod)
 
@@ -684,14 +693,10 @@ def _oracle_end_points(ctx, cls, ps, trim, Tf, T):
         for x, want in pts:
             got = _vals(Tf.transform(np.array([x])))[0]
             if want == inf:
-                # exactly at a pole the last bit of the arithmetic decides; what the property asks for is inf, or 1e16 when
-                # trimming.  A finite value far out (a logarithmic pole saturates at -R log(eps) ~ 36 R) is rounding and
-                # reported as information; nan is a failure.
+                # every pole of these maps is reached exactly in floating point (division by an exact zero, log of an
+                # exact zero): the property asks for inf, or 1e16 when trimming
                 want_txt = "1e16" if trim else "inf"
                 ok = got == (1e16 if trim else inf)
-                if not ok and got == got and got > float(lo_c) + 30 * abs(float(ps[1])):
-                    ctx.info(f"{cls}{tuple(ps)} trim={trim}: transform({x}) = {got!r} at the pole (rounding; the property asks for {want_txt})")
-                    ok = True
                 exact = None
             else:
                 exact = float(hp_call(T, "transform", x))
@@ -702,6 +707,24 @@ def _oracle_end_points(ctx, cls, ps, trim, Tf, T):
                          + (f" (40-digit: {exact!r})" if exact is not None else "") + f", the codomain end is {want_txt}",
                          witness={"class": cls, "params": ps, "trim": trim, "x": x, "got": got},
                          snippet=SNIPPET_END.format(cls=cls, ps=list(ps), trim=trim, x=x, want=(1e16 if trim else inf) if want == inf else want))
+
+
+def _oracle_knowles_end_point(ctx, mod, budget):
+    """x = 1 must map to inf (1e16 when trimming) for every exponent, half-integers included."""
+    ks = [0.5, 1.5, 2.5, 4.5, 5.5, 1.2, 2.2, 3.3, 3.7, 1, 2, 3, 6]
+    if budget == "large":
+        ks += [round(0.5 + 0.1 * i, 1) for i in range(56)]
+    for k in ks:
+        for trim in (True, False):
+            ps = [0.1, 1.5, k]
+            with np.errstate(all="ignore"):
+                T = mod.KnowlesRTransform(*ps, trim_inf=trim)
+                want = 1e16 if trim else float("inf")
+                for how, got in (("array", _vals(T.transform(np.array([0.3, 1.0])))[1]), ("float", _vals(T.transform(1.0))[0])):
+                    if got != want:
+                        ctx.fail("oracle", "rtransform.KnowlesRTransform.endpoints", f"KnowlesRTransform{tuple(ps)} trim={trim}: transform(1.0) "
+                                 f"[{how}] = {got!r}, the codomain end is {want!r}", witness={"params": ps, "trim": trim, "got": got},
+                                 snippet=SNIPPET_END.format(cls="KnowlesRTransform", ps=ps, trim=trim, x=1.0, want=want))
 
 
 def _oracle_scalar_arguments(ctx, mod):
